@@ -268,10 +268,11 @@ let () =
            | Ok b -> "ok:" ^ hex_of_bytes b
            | Err -> "err"
            | Panic -> "panic" in
-         let tidn = n_of_int (int_of_string tid) in
          let sp =
            if schema = [] then "-"
-           else if not (wt u (TPtr tidn) v) then "illtyped"
+           else if tid = "c" then "illtyped"
+           else let tidn = n_of_int (int_of_string tid) in
+           if not (wt u (TPtr tidn) v) then "illtyped"
            else match spec schema (abs u v) with
              | Some b -> "ok:" ^ hex_of_bytes b
              | None -> "none" in
